@@ -237,6 +237,8 @@ def mc_lut(run, tier):
         text = open(os.path.join(tlc.SPEC, cfg)).read()
         if tier == "quick":
             text = text.replace("MaxOps = 7", "MaxOps = 6")
+        elif want == "ok":
+            text = text.replace("MaxOps = 7", "MaxOps = 9")      # thorough: 140 k / 117 k distinct states, ~40 s each
         tmp = "_tmp_%d_%s" % (os.getpid(), cfg)
         with open(os.path.join(tlc.SPEC, tmp), "w") as f:
             f.write(text)
